@@ -216,7 +216,8 @@ Definition for_response (http10 : bool) (is_head_m is_connect_m : bool) (status 
   let is_informational := (100 <=? status) && (status <=? 199) in
   let is_redirect := (300 <=? status) && (status <=? 399) && negb (status =? 304) in
   do hd <- header_defined http10 cl te;
-  let has_body_header := negb (reader_is_close hd) in
+  (* presence of a content-length or transfer-encoding header (as header_lookup sees them: first field, text only) *)
+  let has_body_header := match cl, te with None, None => false | _, _ => true end in
   let has_no_body :=
       is_head_m || (is_success && is_connect_m) || is_informational
       || (status =? 204) || (status =? 304) || (is_redirect && negb has_body_header) in
